@@ -1,4 +1,4 @@
-use crate::context::{ElementMap, TransformerContext};
+use crate::context::{ElementMap, Scope, TransformerContext};
 use crate::element::SvgElement;
 use crate::errors::{Result, SvgdxError};
 use crate::events::{tagify_events, InputList, OutputEvent, OutputList, Tag};
@@ -495,6 +495,8 @@ fn process_tags(
 ) -> Result<Option<BoundingBox>> {
     let mut element_errors: HashMap<OrderIndex, (SvgElement, SvgdxError)> = HashMap::new();
     let remain = &mut Vec::new();
+    // variables in force where each deferred tag stands in the document
+    let mut environments: HashMap<OrderIndex, Vec<Scope>> = HashMap::new();
 
     while !tags.is_empty() && remain.len() != tags.len() {
         #[cfg(feature = "verif")]
@@ -509,7 +511,15 @@ fn process_tags(
             } else {
                 None
             };
+            // a deferred tag is re-evaluated in the environment of its own position,
+            // not in what its later siblings have made of it since
+            let later_env = environments
+                .get(&idx)
+                .map(|env| context.swap_environment(env.clone()));
             let gen_result = t.generate_events(context);
+            if let Some(env) = later_env {
+                context.swap_environment(env);
+            }
             #[cfg(feature = "verif")]
             crate::verif::tag_result(
                 &format!("{:?}", idx),
@@ -559,6 +569,9 @@ fn process_tags(
                             element_errors.insert(idx.clone(), (el, err));
                         }
                     }
+                    environments
+                        .entry(idx.clone())
+                        .or_insert_with(|| context.environment());
                     remain.push((idx, t.clone()));
                 }
             } else if let Ok((_, Some(bbox))) = gen_result {
